@@ -766,7 +766,7 @@ func TestVerifC11FrameModel(t *testing.T) {
 			t.Errorf("replay: %v", err)
 		}
 	}
-	if only {
+	if only || t.Failed() {
 		return
 	}
 	defer rec.Commit(testName)
